@@ -286,11 +286,11 @@ func checkC18(c DialCell, o *Obs) error {
 		log.wait()
 		log.mu.Lock()
 		lg := struct {
-			cr, sr, ur, after   int
-			ct, auth, st, su, sp string
+			cr, sr, ur, after     int
+			ct, auth, st, su, sp  string
 			sauth, tlsDone, inTLS bool
-			bsni, psni           string
-			errs                 []string
+			bsni, psni            string
+			errs                  []string
 		}{log.ConnectReqs, log.SocksReqs, log.UpgradeReqs, log.BytesAfterRefusal, log.ConnectTarget, strings.Join(log.ProxyAuth, "|"), log.SocksTarget, log.SocksUser, log.SocksPass, log.SocksAuthUsed, log.BackendTLSDone, log.UpgradeInsideTLS, log.BackendSNI, log.ProxySNI, append([]string(nil), log.Errors...)}
 		log.mu.Unlock()
 
